@@ -9,6 +9,7 @@ PROP == IOEnv.PROP
 Judge(c) ==
   CASE PROP = "C02" -> P_C02(c)
     [] PROP = "C03" -> P_C03(c)
+    [] PROP = "C04" -> P_C04(c)
     [] OTHER -> FALSE
 Init == l = 1 /\ TLCSet(2, {})
 Step == l <= N /\ l' = l + 1
